@@ -13,7 +13,7 @@
                                  an item may be scheduled when no other open item ended before it began.
 
    choice tokens   c:<cmd>:<0|1>  s:<msg>  x  m:<o|e|i>  rr rf rp rc  ws wa:<0|1> wm:<pick>:<0|1> wc wd  ts:<i> tq:<i>
-   messages        r.<typ>.<echo>  b.<typ>  a  o.<tag>.<0|1>
+   messages        r.<typ>.<echo>  b.<typ>  a  o.<tag>.<0|1>  f (one sub-package of a fragmented message)
    results         resp.<typ>.<echo>  resp.a  timeout  wfail  noexist *)
 open Drv_common
 open BinNums
@@ -27,6 +27,7 @@ let msg_of_tok (t : string) : tmsg =
   | ["r"; typ; e] -> TResp (n_of typ, n_of e)
   | ["b"; typ] -> TBad (n_of typ)
   | ["a"] -> TAttr
+  | ["f"] -> TFrag
   | ["o"; tag; r] -> TOther (n_of tag, b_of r)
   | _ -> failwith ("bad message " ^ t)
 
